@@ -4,7 +4,7 @@
    recursion (Coq accepts no other kind without fuel, and none is used). *)
 From Coq Require Import NArith ZArith List Lia.
 From NGS Require Import Val Ints Words Arr4 CSegEncode CSegDecode RawCodec JpegGlue
-     CSegDecodeProofs.
+     CSegDecodeProofs CSegImplProofs.
 Import ListNotations.
 Open Scope N_scope.
 
@@ -59,6 +59,14 @@ Theorem C10_cseg_decode_crash_is_struct_error : forall dt nc g cx cy cz buf k,
   cseg_decode dt nc g cx cy cz buf = Crash k -> k = StructError.
 Proof. exact cseg_decode_crash_is_struct_error. Qed.
 Print Assumptions C10_cseg_decode_crash_is_struct_error.
+
+(* valid compressed_segmentation data (anything the encoder produces) is never
+   rejected and decodes to the encoded chunk *)
+Theorem C10_cseg_valid_never_rejected : forall dt nc g a buf,
+  wf_arr (dt_bound dt) a -> cseg_encode dt nc g a = Ok buf ->
+  cseg_decode dt nc g (a_x a) (a_y a) (a_z a) buf = Ok a.
+Proof. exact encode_impl_roundtrip. Qed.
+Print Assumptions C10_cseg_valid_never_rejected.
 
 (* --- JPEG glue, relative to what Pillow does (oracle argument): partial,
    libjpeg itself is not modelled *)
